@@ -20,6 +20,9 @@ import (
 type c11Line struct {
 	Line  string `json:"line"`
 	Valid bool   `json:"valid"` // constructed from the grammar: expected values below
+	// Lenient: the server may refuse the line; if it hands it to the backend, the values must be
+	// the expected ones (hexchars above +7F in an xtext value stand for exactly that octet)
+	Lenient bool `json:"lenient"`
 	// expected backend observation for valid lines
 	Mailbox    string   `json:"mailbox"`
 	MailboxAlt string   `json:"mailbox_alt"` // accepted alternative (unquoted form of a quoted local-part)
@@ -306,6 +309,11 @@ func c11Run(ctx *core.Ctx) {
 			for _, p := range probes {
 				ls = append(ls, c11Line{Line: p})
 			}
+			// xtext hexchars for octets above 0x7F in the AUTH= mailbox: refused, or decoded to
+			// exactly those octets - never to something else
+			for _, hx := range []struct{ enc, dec string }{{"ren+E9@example.org", "ren\xe9@example.org"}, {"u+80v@example.org", "u\x80v@example.org"}, {"u+FFv@example.org", "u\xffv@example.org"}, {"ren+C3+A9@example.org", "ren\xc3\xa9@example.org"}} {
+				ls = append(ls, c11Line{Line: "MAIL FROM:<a@b.test> AUTH=" + hx.enc, Lenient: true, Mailbox: "a@b.test", HasAuth: true, Auth: hx.dec})
+			}
 			batch(conf, ls)
 		}
 		// short strings as the path
@@ -468,6 +476,13 @@ func c11Exec(ctx *core.Ctx, c c11Case) {
 			fail("C11:recovered-panic", "the line made the server panic: "+pm)
 		}
 		switch {
+		case l.Lenient:
+			ctx.Add("lenient_lines_compared_when_accepted", 1)
+			if cb != nil {
+				if d := c11Diff(l, cb, isRcpt); d != "" {
+					fail("C11:backend-values-differ:"+strings.SplitN(d, " ", 2)[0], "the line may be refused, but it was accepted and the backend received different values: "+d)
+				}
+			}
 		case l.Valid:
 			ctx.Add("valid_lines_compared", 1)
 			if r.Code != 250 || cb == nil {
